@@ -4815,8 +4815,8 @@ class QNTSimplifyMacro(Macro):
         if not lhs.is_forall() and not lhs.is_exists():
             raise VeriTException("qnf_simplify", "lhs should be a quantification")
         
-        _, l_bd = lhs.strip_quant()
-        if l_bd == rhs:
+        l_vars, l_bd = lhs.strip_quant()
+        if l_bd == rhs and not any(rhs.occurs_var(v) for v in l_vars):
             return Thm(goal)
         else:
             raise VeriTException("qnf_simplify", "unexpected result")
